@@ -132,6 +132,9 @@ pub enum Op
     DespawnSys(ActorId),
     /// `clear()` an actor's system entity: the entity stays, its system (the storage component) is gone.
     StripSys(ActorId),
+    /// Insert an unrelated plain component on an actor's system entity (the entity moves to another archetype; the
+    /// system is untouched).
+    TagSys(ActorId),
     /// Add triggers to an existing actor.
     Register(ActorId, Bundle, Mode),
     /// Spawn a new actor and register it (`on` / `on_persistent` / `on_revokable` shape).
@@ -160,7 +163,7 @@ impl Op
     {
         match *self
         {
-            Op::Run(a) | Op::SysEvent(a) | Op::DespawnSys(a) | Op::StripSys(a) | Op::Register(a, _, _) => Some(a),
+            Op::Run(a) | Op::SysEvent(a) | Op::DespawnSys(a) | Op::StripSys(a) | Op::TagSys(a) | Op::Register(a, _, _) => Some(a),
             _ => None,
         }
     }
